@@ -715,6 +715,10 @@ class ExprMixin:
                 yield "ok", ("boolop", type(n.op).__name__, tuple(ts)), s
 
     def e_Compare(self, n, st, fx):
+        from .terms import has_genobj
+        if len(n.ops) == 1 and isinstance(n.ops[0], (ast.In, ast.NotIn)) and isinstance(n.comparators[0], ast.Name) \
+                and has_genobj(st.env.get(n.comparators[0].id)):
+            raise AnalysisError("membership test on a generator object (%s) at %s:%d: not read" % (n.comparators[0].id, fx.func.file, n.lineno))
         # x in (E for v in IT)  /  x in map(f, IT)   ==   any(E == x for v in IT)      (and `not in` its negation)
         if len(n.ops) == 1 and isinstance(n.ops[0], (ast.In, ast.NotIn)):
             c = n.comparators[0]
@@ -1166,7 +1170,9 @@ class ExprMixin:
             return
         if isinstance(test, ast.Compare) and len(test.ops) == 1 and isinstance(test.ops[0], (ast.In, ast.NotIn)) and record \
                 and isinstance(test.comparators[0], (ast.Tuple, ast.List, ast.Set)) and 0 < len(test.comparators[0].elts) <= 8 \
-                and all(isinstance(x, ast.Constant) for x in test.comparators[0].elts):
+                and all(isinstance(x, ast.Constant) or (isinstance(x, (ast.Name, ast.Attribute)) and not any(
+                    isinstance(y, (ast.Call, ast.Subscript)) for y in ast.walk(x))) for x in test.comparators[0].elts) \
+                and not any(isinstance(y, (ast.Call, ast.NamedExpr, ast.Await)) for y in ast.walk(test.left)):
             # x in (c1, c2, ..)  ==  x == c1 or x == c2 ..   (so the later x == ci tests are decided by the facts)
             isin = isinstance(test.ops[0], ast.In)
             parts = [ast.Compare(left=test.left, ops=[ast.Eq() if isin else ast.NotEq()], comparators=[c]) for c in test.comparators[0].elts]
@@ -1256,6 +1262,13 @@ class ExprMixin:
                 # a truth value put together elsewhere (the result of a helper: `return lo <= x < hi`): the path forks on its
                 # parts as it would on the expression written in place, so that each side knows which part decided
                 yield from self._branch_term(t, s, fx, test, text)
+                continue
+            if isinstance(t, tuple) and t[0] == "cmp" and t[1] in ("==", "!=") and all(
+                    isinstance(x, tuple) and x and x[0] in ("nonnull", "not", "cmp", "boolop") for x in t[2:4]):
+                # two truth values compared (noTopic != noMessage): the four combinations of what each of them says
+                for r1, p1, s1 in self._branch_term(t[2], s, fx, test, text):
+                    for r2, p2, s2 in self._branch_term(t[3], s1, fx, test, text):
+                        yield "ok", ((p1 != p2) if t[1] == "!=" else (p1 == p2)), s2
                 continue
             for pol in (True, False):
                 s2 = s.fork()
